@@ -311,6 +311,10 @@ def run(chk, replay=None):
                 idx = next((i for i in range(min(len(a), len(b))) if a[i] != b[i]), 0)
                 clob_bad.append((c, idx, "connection behaves differently when the logger's sink leaves EPIPE in errno: %r vs %r (a write error is classified by an errno read after LOG_SYSERR)" % (b[idx], a[idx])))
             sigs.add(("conn-clobber", tuple(c.ops)))
+    if not chk.cov["samples"] and ccases:
+        # always show at least one actual faulted connection case with its calmed twin
+        c0 = next((c for c in ccases if any(x in connlib.TRANSIENT for op in c.ops for x in op.split())), ccases[0])
+        chk.sample({"case": c0.text().split("\n")[:-1][:30], "calmed_twin": connlib.calm_case(c0).ops[:30]})
     chk.cov["distinct_nontrivial"] = len(sigs)
     chk.cov["rule"] = ("listener: enumerated + random histories over {client connects, accept ok, EMFILE, 5 transient errno classes, fatal classes in a forked child}, persisting-shortage "
                        "scenarios, the same EMFILE histories under a logger sink that changes errno; loop: the real EventLoop::loop() with every pass scripted (what another thread "
